@@ -74,7 +74,7 @@ def streams(tier, rng, P, only=None, cases=None):
             defs = {}
             if rng.random() < 0.4:
                 for _ in range(rng.randrange(1, 3)):
-                    ch = rng.choice("bshxkQ"); defs[ch] = rng.choice(["n40,", "n35,", "n60,", "r"])
+                    ch = rng.choice("bshxkQ"); defs[ch] = rng.choice(["n40,", "n35,", "n60,", "r", "Sub{n36,}n42,", "Sub{n36,}Sub{n38,}n46,", "[2 n41,16]n43,", "'n36,n42,'", "{n38,n38,n38,}"])   # definitions may hold nested blocks
             text = ""
             for _ in range(rng.randrange(1, 10)):
                 x = rng.random()
